@@ -218,9 +218,41 @@ func runC19(c *Ctx, _ []string) {
 		if rc == 0 || !bytes.Equal(now, precious) {
 			viol("clobber", "existing explicit output overwritten without --force (status %d)", rc)
 		}
+		// no other option may stand in for --force
+		for _, extra := range [][]string{{"--rm"}, {"-j", "4"}, {"-l", "3"}, {"--rm", "-l", "1", "-x64"}, {"-t", "NONE", "-e", "NONE"}, {"--skip"}, {"-x32", "--rm", "-j", "2"}} {
+			for _, explicit := range []bool{false, true} {
+				args := []string{"-c", "-i", src, "-v", "0"}
+				if explicit {
+					args = append(args, "-o", src+".knz")
+				}
+				args = append(args, extra...)
+				c.Count("evaluations", 1)
+				rc, _, _ := runTool(bin, 60*time.Second, nil, args...)
+				now, _ := os.ReadFile(src + ".knz")
+				still, _ := os.ReadFile(src)
+				if rc == 0 || !bytes.Equal(now, precious) || !bytes.Equal(still, data) {
+					viol("clobber", "compression %v without --force: existing output overwritten or source removed (status %d, output intact %v, source intact %v)", args, rc, bytes.Equal(now, precious), bytes.Equal(still, data))
+					os.WriteFile(src+".knz", precious, 0644)
+					os.WriteFile(src, data, 0644)
+				}
+			}
+		}
 		rc, _, se := runTool(bin, 60*time.Second, nil, "-c", "-i", src, "-f", "-v", "0")
 		if rc != 0 {
 			viol("force", "--force compression fails: %d %s", rc, se)
+		}
+		knz, _ := os.ReadFile(src + ".knz")
+		for _, extra := range [][]string{{"--rm"}, {"-j", "3"}, {"--rm", "-j", "2"}} {
+			os.WriteFile(filepath.Join(dir, "out.bin"), precious, 0644)
+			args := append([]string{"-d", "-i", src + ".knz", "-o", filepath.Join(dir, "out.bin"), "-v", "0"}, extra...)
+			c.Count("evaluations", 1)
+			rc, _, _ := runTool(bin, 60*time.Second, nil, args...)
+			now, _ := os.ReadFile(filepath.Join(dir, "out.bin"))
+			still, _ := os.ReadFile(src + ".knz")
+			if rc == 0 || !bytes.Equal(now, precious) || !bytes.Equal(still, knz) {
+				viol("clobber", "decompression %v without --force: existing output overwritten or source removed (status %d)", args, rc)
+				os.WriteFile(src+".knz", knz, 0644)
+			}
 		}
 		// decompression side
 		os.WriteFile(filepath.Join(dir, "out.bin"), precious, 0644)
